@@ -263,18 +263,22 @@ Proof. exact uncertain_absolute_iff. Qed.
 Print Assumptions C03_uncertain_absolute_iff.
 
 Theorem C03_uncertain_relative_valid : forall b, wf_bytes b -> uncertain_check b = Ok false ->
-  uncertain_rel_checked = true \/ uncertain_relative_255 b = false ->
   exists n, valid_rel n /\ n <> [] /\ b = wire_rel n.
-Proof. exact uncertain_relative_valid. Qed.
+Proof. exact uncertain_relative_valid_full. Qed.
 Print Assumptions C03_uncertain_relative_valid.
-
-Theorem C03_uncertain_limit_refuted : uncertain_rel_checked = false ->
-  wf_bytes (wire_rel unc_witness) /\ uncertain_check (wire_rel unc_witness) = Ok false /\
-  length (wire_rel unc_witness) = 255%nat /\ forall n, valid_rel n -> wire_rel unc_witness <> wire_rel n.
-Proof. exact uncertain_limit_refuted. Qed.
-Print Assumptions C03_uncertain_limit_refuted.
 
 Theorem C03_chain_uncertain_valid : forall l r, valid_rel l -> valid_abs r ->
   chain_new_uncertain true (wire_len l) (wire_len r + 1) = Ok tt -> valid_abs (l ++ r).
 Proof. exact chain_uncertain_valid. Qed.
 Print Assumptions C03_chain_uncertain_valid.
+
+(* ---- OwnedLabel::from_chars *)
+Theorem C03_owned_label_valid : forall cs l,
+  owned_label_from_chars cs = Ok l -> wf_bytes l /\ (length l <= 63)%nat.
+Proof. exact owned_label_valid. Qed.
+Print Assumptions C03_owned_label_valid.
+
+Theorem C03_display_parse_roundtrip_rel : forall n, valid_rel n ->
+  rel_from_chars None (display_rel n) = Ok (wire_rel n).
+Proof. exact display_parse_roundtrip_rel. Qed.
+Print Assumptions C03_display_parse_roundtrip_rel.
